@@ -407,7 +407,7 @@ theorem loadFileAndParents_first_parent (fs : FS) (cfg : RootCfg) (fuel : Nat) (
     (q : Comps) (rest : List Comps) (e : Err)
     (hc : path ∉ chain)
     (hl : ∀ fid, loadFile fs cfg path fid = .ok raw)
-    (hp : fileParents fs path raw = .ok (q :: rest))
+    (hp : fileParents fs cfg path raw = .ok (q :: rest))
     (hq : ∀ c' ids', loadFileAndParents fs cfg fuel q c' ids' (path :: chain) = .error e) :
     loadFileAndParents fs cfg (fuel + 1) path c ids chain = .error e := by
   rw [loadFileAndParents.eq_def]
@@ -417,7 +417,7 @@ theorem loadFileAndParents_first_parent (fs : FS) (cfg : RootCfg) (fuel : Nat) (
 
 /-- `q` is the first parent of the (loadable) file `p` -/
 def ParentEdge (fs : FS) (cfg : RootCfg) (p q : Comps) : Prop :=
-  ∃ raw rest, (∀ fid, loadFile fs cfg p fid = .ok raw) ∧ fileParents fs p raw = .ok (q :: rest)
+  ∃ raw rest, (∀ fid, loadFile fs cfg p fid = .ok raw) ∧ fileParents fs cfg p raw = .ok (q :: rest)
 
 /-- a set of files closed under "first parent": loading never leaves it -/
 def ParentClosed (fs : FS) (cfg : RootCfg) (S : Comps → Prop) : Prop :=
@@ -744,22 +744,6 @@ theorem splitPath_eq_cyc : splitPath = splitPath' := by
   funext p; unfold splitPath splitPath'
   rw [show "/" = String.ofList ['/'] from rfl, splitOn_char]
 
-/-- the names `globFiles` selects, before sorting -/
-def globNames_cyc (fs : FS) (rdir : Comps) (base : String) : List String :=
-  ((fs.entries.filter (fun e => e.1.dropLast == rdir && !e.1.isEmpty)).map
-      (fun e => baseOf e.1)).filter
-    fun n => globMatch (base ++ ".*").toList n.toList ((base ++ ".*").length + n.length + 1)
-      && countDots n == countDots (base ++ ".*") && supportedExts.contains (extOf' n)
-
-theorem globFiles_eq_cyc (fs : FS) (dir : Comps) (base : String) :
-    fs.globFiles dir base =
-      match fs.evalSymlinks dir with
-      | none => []
-      | some rdir =>
-        ((globNames_cyc fs rdir base).toArray.qsort (· < ·)).toList.map fun n => dir ++ [n] := by
-  unfold FS.globFiles globNames_cyc
-  rw [extOf_eq_cyc]; rfl
-
 /-- two files naming each other in `$parent`: `/w/p.yaml` ⇄ `/w/q.yaml` -/
 def fsPQ : FS := { entries := [
   (["w"], .dir),
@@ -767,18 +751,6 @@ def fsPQ : FS := { entries := [
   (["w", "q.yaml"], .file (.ok [.map [("$parent", .str "p")]]))] }
 
 def cfgPQ : RootCfg := { root := [], cwd := ["w"] }
-
-theorem fsPQ_glob (x : String) (hx : x = "p" ∨ x = "q") :
-    fsPQ.globFiles ["w"] x = [["w", x ++ ".yaml"]] := by
-  have h1 : fsPQ.evalSymlinks ["w"] = some ["w"] := by decide
-  rw [globFiles_eq_cyc, h1]
-  have h2 : globNames_cyc fsPQ ["w"] x = [x ++ ".yaml"] := by
-    rcases hx with rfl | rfl <;> decide
-  simp only []
-  rw [h2]
-  show ((#[x ++ ".yaml"].qsort _).toList.map _) = _
-  rw [qsort_singleton_cyc]
-  rfl
 
 theorem fsPQ_load_p (fid : String) :
     loadFile fsPQ cfgPQ ["w", "p.yaml"] fid = .ok [.map [("$parent", .str "q")]] := by
@@ -791,31 +763,6 @@ theorem fsPQ_load_q (fid : String) :
   unfold loadFile
   rw [extOf_eq_cyc]
   decide
-
-theorem fsPQ_parents (x y : String) (hx : x = "p" ∨ x = "q") (hy : y = "p" ∨ y = "q") :
-    fileParents fsPQ ["w", x ++ ".yaml"] [.map [("$parent", .str y)]] =
-      .ok [["w", y ++ ".yaml"]] := by
-  unfold fileParents
-  have hm : List.mapM parentDirective [Val.map [("$parent", Val.str y)]] =
-      .ok [ParentDir.names [y]] := rfl
-  rw [hm, splitPath_eq_cyc]
-  simp only [e_ok_bind, List.any_cons, List.any_nil, Bool.or_false, List.flatMap_cons,
-    List.flatMap_nil, List.append_nil, List.isEmpty_cons, Bool.not_false, if_true,
-    Bool.false_eq_true, if_false, List.foldlM_cons, List.foldlM_nil]
-  have ht : cleanComps (dirOf ["w", x ++ ".yaml"] ++ splitPath' y) = ["w", y] := by
-    rcases hx with rfl | rfl <;> rcases hy with rfl | rfl <;> decide
-  have hd : dirOf ["w", y] = ["w"] := rfl
-  have hb : baseOf ["w", y] = y := rfl
-  rw [ht, hd, hb, fsPQ_glob y hy]
-  rfl
-
-theorem fsPQ_parents_p :
-    fileParents fsPQ ["w", "p.yaml"] [.map [("$parent", .str "q")]] = .ok [["w", "q.yaml"]] :=
-  fsPQ_parents "p" "q" (Or.inl rfl) (Or.inr rfl)
-
-theorem fsPQ_parents_q :
-    fileParents fsPQ ["w", "q.yaml"] [.map [("$parent", .str "p")]] = .ok [["w", "p.yaml"]] :=
-  fsPQ_parents "q" "p" (Or.inr rfl) (Or.inl rfl)
 
 /-! ## the example documents of C08 -/
 
